@@ -118,16 +118,43 @@ def make_codegen(kind):
     return JsonCodeGen() if kind == 'json' else PySnmpCodeGen()
 
 
-def compile_set(texts, requested, codegen='json', dialect='smiV2', stubs=BASE_NAMES, extra_base=(), **options):
-    """Full pipeline on in-memory texts with fresh objects.  Returns (status dict, {module: text written})."""
+def compile_set(texts, requested, codegen='json', dialect='smiV2', stubs=BASE_NAMES, extra_base=(), source='memory',
+                **options):
+    """Full pipeline with fresh objects.  Returns (status dict, {module: text written}).
+    source: 'memory' (texts handed over by an in-memory reader), 'files' / 'zip' (texts written octet for octet as UTF-8 into a
+    scratch directory / archive and read back by the real FileReader / ZipReader)."""
     writer = CaptureWriter()
     comp = MibCompiler(fresh_parser(dialect) if isinstance(dialect, (str, dict)) else dialect,
                        make_codegen(codegen) if isinstance(codegen, str) else codegen, writer)
     alltexts = base_texts(extra_base)
     alltexts.update(texts)
-    comp.addSources(DictReader(alltexts))
-    comp.addSearchers(StubSearcher(*stubs))
-    res = comp.compile(*requested, **options)
+    tmp = None
+    try:
+        if source == 'memory':
+            comp.addSources(DictReader(alltexts))
+        else:
+            import tempfile
+            tmp = tempfile.mkdtemp(prefix='mcsrc', dir=os.environ.get('VERIF_TMP') or ('/dev/shm' if os.path.isdir('/dev/shm') else None))
+            blobs = dict((n, t if isinstance(t, bytes) else t.encode('utf-8')) for n, t in alltexts.items())
+            if source == 'files':
+                from pysmi.reader.localfile import FileReader
+                for n, b in blobs.items():
+                    with open(os.path.join(tmp, n + '.mib'), 'wb') as f:
+                        f.write(b)
+                comp.addSources(FileReader(tmp))
+            else:
+                import zipfile
+                from pysmi.reader.zipreader import ZipReader
+                with zipfile.ZipFile(os.path.join(tmp, 'm.zip'), 'w') as z:
+                    for n, b in sorted(blobs.items()):
+                        z.writestr(n + '.mib', b)
+                comp.addSources(ZipReader(os.path.join(tmp, 'm.zip')))
+        comp.addSearchers(StubSearcher(*stubs))
+        res = comp.compile(*requested, **options)
+    finally:
+        if tmp:
+            import shutil
+            shutil.rmtree(tmp, ignore_errors=True)
     return res, dict((n, d) for n, d, _ in writer.written)
 
 
